@@ -1,13 +1,14 @@
 #!/bin/sh
 # seedrun.sh <seed-or-mutant patch> <prop> [<prop>...]: apply the patch in a scratch worktree of /repo (never /repo
 # itself), run the listed checks against it through VERIF_REPO, remove the worktree. Prints one line per check.
+V=$(dirname "$(dirname "$(readlink -f "$0")")")
 patch=$(readlink -f "$1"); shift
 name=$(basename $(dirname "$patch"))-$(basename "$patch" .patch)
 W=/tmp/seedrun-$$
 git -C /repo worktree add -q --detach $W HEAD || exit 2
-trap 'git -C /repo worktree remove --force $W 2>/dev/null; find /verif/replays -type f ! -name .gitkeep -delete' EXIT
+trap 'git -C /repo worktree remove --force $W 2>/dev/null; find $V/replays -type f ! -name .gitkeep -delete' EXIT
 (cd $W && git apply "$patch") || { echo "PATCH DOES NOT APPLY: $patch"; exit 2; }
 for p in "$@"; do
-  out=$(cd /verif && VERIF_REPO=$W VERIF_EVIDENCE_DIR=/verif/.work/evidence-scratch python3 bin/check run "$p" 2>&1); rc=$?
+  out=$(cd $V && VERIF_REPO=$W VERIF_EVIDENCE_DIR=$V/.work/evidence-scratch python3 bin/check run "$p" 2>&1); rc=$?
   echo "== $name $p exit=$rc $(echo "$out" | grep -aE 'ORACLE|DATA RACE' | grep -av 'rapid\] failed' | head -1 | cut -c1-220)"
 done
